@@ -4,8 +4,13 @@ package server
 // plus the tie of the Lean model of path/filepath Clean/Join to the real functions.
 
 import (
+	"bytes"
+	"crypto/sha256"
+	"encoding/json"
 	"errors"
 	"fmt"
+	"net/http"
+	"net/http/httptest"
 	"os"
 	"path/filepath"
 	"sort"
@@ -361,6 +366,9 @@ func TestVerifC13(t *testing.T) {
 		}
 	}
 	t.Setenv("OLLAMA_MODELS", models)
+	// the real HTTP handlers over a scratch store with decoys outside it
+	c13HandlerSuite(t, out)
+	t.Setenv("OLLAMA_MODELS", models)
 	// enumeration of the store (server.Manifests) and CopyModel over directories with odd entries
 	eroot := zzverif.NewRng(zzverif.Seed() + 3500)
 	ne := n / 40
@@ -591,4 +599,272 @@ func c13AllFiles(dir string) []string {
 		return nil
 	})
 	return res
+}
+
+// ---------------------------------------------------------------- the real gin handlers
+
+type c13FailRT struct{}
+
+func (c13FailRT) RoundTrip(*http.Request) (*http.Response, error) {
+	return nil, errors.New("c13: no network in the handler suite")
+}
+
+type c13Rec struct{ *httptest.ResponseRecorder }
+
+func (c13Rec) CloseNotify() <-chan bool { return make(chan bool) }
+
+// c13Snapshot: every path below base with "d" for a directory and the content hash for a file.
+func c13Snapshot(base string) map[string]string {
+	m := map[string]string{}
+	filepath.Walk(base, func(p string, info os.FileInfo, err error) error {
+		if err != nil {
+			return nil
+		}
+		if info.IsDir() {
+			m[p] = "d"
+		} else {
+			b, _ := os.ReadFile(p)
+			m[p] = fmt.Sprintf("%x", sha256.Sum256(b))
+		}
+		return nil
+	})
+	return m
+}
+
+// c13SeenByJSON: the string a handler receives after the JSON round trip of the request body.
+func c13SeenByJSON(s string) string {
+	b, _ := json.Marshal(s)
+	var back string
+	json.Unmarshal(b, &back)
+	return back
+}
+
+func c13HandlerSuite(t *testing.T, out *zzverif.Out) {
+	base := t.TempDir()
+	store := filepath.Join(base, "l1", "l2", "l3", "store")
+	put := func(p, content string) {
+		os.MkdirAll(filepath.Dir(p), 0o755)
+		os.WriteFile(p, []byte(content), 0o644)
+	}
+	blobX := fmt.Sprintf("sha256-%x", sha256.Sum256([]byte("x")))
+	fixture := func() {
+		put(filepath.Join(store, "manifests/registry.ollama.ai/library/inside/latest"), "{}")
+		put(filepath.Join(store, "manifests/h/n/Phi/t"), "{}")
+		put(filepath.Join(store, "blobs", blobX), "x")
+		// decoys OUTSIDE the store, where a name / digest that climbs would land
+		put(filepath.Join(base, "l1/l2/l3/manifests/registry.ollama.ai/library/decoy/latest"), "{}")
+		put(filepath.Join(base, "l1/l2/l3/registry.ollama.ai/library/decoy/latest"), "{}")
+		put(filepath.Join(base, "l1/l2/l3/decoy"), "{}")
+		put(filepath.Join(base, "l1/l2/l3/decoyd/latest"), "{}")
+		put(filepath.Join(base, "l1/l2/l3/store/decoyd/latest"), "{}")
+		put(filepath.Join(base, "l1/l2/l3/blobs/sha256-"+strings.Repeat("a", 64)), "outside")
+		put(filepath.Join(base, "l1/l2/l3/sha256-"+strings.Repeat("a", 64)), "outside")
+		put(filepath.Join(base, "l1/l2/sha256-"+strings.Repeat("a", 64)), "outside")
+	}
+	fixture()
+	t.Setenv("OLLAMA_MODELS", store)
+	oldRT := http.DefaultTransport
+	http.DefaultTransport = c13FailRT{}
+	defer func() { http.DefaultTransport = oldRT }()
+	srv := &Server{}
+	h, err := srv.GenerateRoutes(nil)
+	if err != nil {
+		t.Fatal(err)
+	}
+	do := func(method, path string, body []byte) (code int, resp string) {
+		defer func() {
+			if r := recover(); r != nil {
+				code, resp = 599, fmt.Sprint(r)
+			}
+		}()
+		req := httptest.NewRequest(method, path, bytes.NewReader(body))
+		req.Header.Set("Content-Type", "application/json")
+		w := c13Rec{httptest.NewRecorder()}
+		h.ServeHTTP(w, req)
+		return w.Code, w.Body.String()
+	}
+	// FS effect of one request: everything that changed must lie inside the store, at the fixed places
+	check := func(kind, op string, before map[string]string) {
+		after := c13Snapshot(base)
+		var changed []string
+		for p, v := range after {
+			if before[p] != v {
+				changed = append(changed, p)
+			}
+		}
+		for p := range before {
+			if _, ok := after[p]; !ok {
+				changed = append(changed, p)
+			}
+		}
+		sort.Strings(changed)
+		for _, p := range changed {
+			if !strings.HasPrefix(p, store+"/") && p != store {
+				out.L2("handler-touches-outside", op, kind+": changed outside the models directory: "+p)
+				continue
+			}
+			rel := strings.TrimPrefix(p, store+"/")
+			q := strings.Split(rel, "/")
+			isFile := after[p] != "d" && after[p] != "" || before[p] != "d" && before[p] != ""
+			ok := false
+			switch q[0] {
+			case "blobs":
+				ok = len(q) == 1 || len(q) == 2
+			case "manifests":
+				ok = len(q) <= 5 && (!isFile || len(q) == 5)
+			}
+			if p == store {
+				ok = true
+			}
+			if !ok {
+				out.L2("handler-touches-outside", op, kind+": changed at an unexpected place inside the store: "+rel)
+			}
+		}
+		if len(changed) > 0 {
+			out.Count("handler_fs_changes")
+			fixture()
+		}
+	}
+	inStore := func(n model.Name) bool {
+		for _, f := range c13WalkFiles(filepath.Join(store, "manifests"), 4) {
+			if e := model.ParseNameFromFilepath(f); e.IsValid() && e.EqualFold(n) {
+				return true
+			}
+		}
+		return false
+	}
+	js := func(v any) []byte { b, _ := json.Marshal(v); return b }
+	names := []string{"inside", "INSIDE", "h/n/phi:t", "H/N/PHI:T", "decoy", "../decoy", "../library/decoy", "../../registry.ollama.ai/library/decoy",
+		"../manifests/registry.ollama.ai/library/decoy:latest", "registry.ollama.ai/library/../../decoy", "registry.ollama.ai/../library/decoy:latest",
+		"../../decoyd", "../decoyd", "../../decoyd:latest", "..", ".", "../..", "a/../b", "h/n/..:t", "h/n/m:..", "h/../m:t", "../h/n/m:t", "/decoy", "//decoy", "h//decoy", "./decoy", "decoy/", "decoy:",
+		"%2e%2e/decoy", "..%2fdecoy", "decoy\x00", "\\..\\decoy", "..\\decoy", "http://h/n/m:t", "x://decoy", "decoy@sha256:" + strings.Repeat("a", 64),
+		"registry.ollama.ai/library/decoy/latest", "h/n/m/t/u", "", " ", "nosuch", "h/n/nosuch:t", strings.Repeat("a", 81), strings.Repeat("h", 351) + "/n/m:t"}
+	root := zzverif.NewRng(zzverif.Seed() + 3700)
+	for i := 0; i < 25; i++ {
+		_, nm := zzverif.C13Name(root.Fork())
+		names = append(names, nm)
+	}
+	type ep struct {
+		kind, method, path string
+		body               func(s string) []byte
+		strict             bool // answers 400 exactly when the name is not valid
+	}
+	eps := []ep{
+		{"show", "POST", "/api/show", func(s string) []byte { return js(map[string]any{"model": s}) }, true},
+		{"delete", "DELETE", "/api/delete", func(s string) []byte { return js(map[string]any{"model": s}) }, true},
+		{"copy-src", "POST", "/api/copy", func(s string) []byte { return js(map[string]any{"source": s, "destination": "h/n/copied:t"}) }, true},
+		{"copy-dst", "POST", "/api/copy", func(s string) []byte { return js(map[string]any{"source": "inside", "destination": s}) }, true},
+		{"create", "POST", "/api/create", func(s string) []byte { return js(map[string]any{"model": s, "from": "inside", "stream": false}) }, true},
+		{"create-from", "POST", "/api/create", func(s string) []byte {
+			return js(map[string]any{"model": "h/n/created:t", "from": s, "stream": false})
+		}, false},
+		{"pull", "POST", "/api/pull", func(s string) []byte { return js(map[string]any{"model": s, "stream": false}) }, true},
+		{"push", "POST", "/api/push", func(s string) []byte { return js(map[string]any{"model": s, "stream": false}) }, false},
+		{"generate", "POST", "/api/generate", func(s string) []byte { return js(map[string]any{"model": s, "prompt": "x", "stream": false}) }, false},
+		{"chat", "POST", "/api/chat", func(s string) []byte {
+			return js(map[string]any{"model": s, "stream": false, "messages": []map[string]string{{"role": "user", "content": "x"}}})
+		}, false},
+		{"embed", "POST", "/api/embed", func(s string) []byte { return js(map[string]any{"model": s, "input": "x"}) }, false},
+		{"embeddings", "POST", "/api/embeddings", func(s string) []byte { return js(map[string]any{"model": s, "prompt": "x"}) }, false},
+	}
+	for _, raw := range names {
+		s := c13SeenByJSON(raw)
+		// L1: the parse step every handler shares, on the real functions: ParseName, IsValid, the path GetModel opens
+		n := model.ParseName(s)
+		hop := "hname " + zzverif.Hex([]byte(store)) + " " + zzverif.Hex([]byte(s))
+		if !n.IsValid() {
+			out.Case(hop, "invalid")
+			out.Count("handler_names_invalid")
+		} else {
+			p, perr := ParseModelPath(n.String()).GetManifestPath()
+			if perr != nil {
+				out.Case(hop, "error")
+			} else {
+				out.Case(hop, "ok "+zzverif.Hex([]byte(p)))
+			}
+			out.Count("handler_names_valid")
+			if q := filepath.Join(store, "manifests", n.Filepath()); q != p {
+				out.L2("handler-paths-disagree", hop, "GetModel would open "+p+", ParseNamedManifest "+q)
+			}
+		}
+		out.Count("cases")
+		for _, e := range eps {
+			op := "hname " + zzverif.Hex([]byte(store)) + " " + zzverif.Hex([]byte(s))
+			before := c13Snapshot(base)
+			inStoreBefore := n.IsValid() && inStore(n)
+			code, resp := do(e.method, e.path, e.body(s))
+			out.Count("handler_requests")
+			out.Count("handler_" + e.kind)
+			if code == 599 {
+				out.L2("handler-panics", op, e.kind+": "+resp)
+			}
+			check(e.kind, op, before)
+			invalid := code >= 400 && (strings.Contains(resp, "invalid model name") || strings.Contains(resp, "invalid model path") || strings.Contains(resp, " is invalid\""))
+			if e.strict && s != "" && invalid == n.IsValid() { // the empty name has its own answers ("model is required")
+				out.L2("handler-validity-disagrees", op, fmt.Sprintf("%s: ParseName(..).IsValid()=%v but the handler answered %d %s", e.kind, n.IsValid(), code, resp))
+			}
+			if !n.IsValid() && code >= 200 && code < 300 {
+				out.L2("handler-accepts-invalid-name", op, fmt.Sprintf("%s answered %d for a name that is not valid", e.kind, code))
+			}
+			// "found": the handler got past the lookup of the manifest (anything but invalid / 404 not found; the fixture's
+			// manifests are empty, so show then fails later).  Only names the store spells may be found.
+			// (show is not used: with the fixture's empty manifests it answers 404 later, when it opens the model file)
+			if (e.kind == "delete" || e.kind == "copy-src") && n.IsValid() && !invalid && code != http.StatusNotFound &&
+				!strings.Contains(resp, "file name too long") { // a valid 256..350-byte host is not a creatable directory name (ENAMETOOLONG)
+				out.Count("handler_found")
+				if !inStoreBefore {
+					out.L2("handler-reads-outside", op, fmt.Sprintf("%s found a model that no manifest of the store spells: %d %s", e.kind, code, resp))
+				}
+			} else if (e.kind == "delete" || e.kind == "copy-src") && n.IsValid() && inStoreBefore {
+				out.L2("handler-misses-model", op, fmt.Sprintf("%s does not find a model the store holds: %d %s", e.kind, code, resp))
+			}
+		}
+	}
+	// /api/blobs/:digest, HEAD and POST
+	digests := []string{"sha256:" + strings.Repeat("a", 64), "sha256-" + strings.Repeat("a", 64), strings.Replace(blobX, "-", ":", 1), blobX,
+		"..", "sha256:..", "..%2fsha256:" + strings.Repeat("a", 64), "..%2f..%2fsha256-" + strings.Repeat("a", 64), "%2e%2e", "sha256:" + strings.Repeat("A", 64),
+		"sha256:" + strings.Repeat("a", 63), "sha256:" + strings.Repeat("a", 65), "x", "sha256", "sha256:" + strings.Repeat("%2f", 64), "sha256%3a" + strings.Repeat("a", 64)}
+	for i := 0; i < 25; i++ {
+		_, d := zzverif.C13Digest(root.Fork())
+		printable := d != ""
+		for _, c := range []byte(d) {
+			if c <= ' ' || c >= 0x7f || strings.ContainsRune("/?#%\\", rune(c)) {
+				printable = false
+			}
+		}
+		if printable {
+			digests = append(digests, d)
+		}
+	}
+	for _, d := range digests {
+		for _, method := range []string{"HEAD", "POST"} {
+			op := "blobs " + zzverif.Hex([]byte(store)) + " " + zzverif.Hex([]byte(d))
+			before := c13Snapshot(base)
+			code, resp := do(method, "/api/blobs/"+d, []byte("x"))
+			out.Count("handler_requests")
+			out.Count("handler_blob_" + method)
+			if code == 599 {
+				out.L2("handler-panics", op, method+" blobs: "+resp)
+			}
+			check("blobs-"+method, op, before)
+			if !strings.Contains(d, "%") {
+				_, gerr := GetBlobsPath(d)
+				if (gerr != nil) != (code == http.StatusBadRequest && strings.Contains(resp, "invalid digest")) && !(gerr == nil && code == http.StatusBadRequest && method == "POST") {
+					out.L2("handler-validity-disagrees", op, fmt.Sprintf("%s /api/blobs: GetBlobsPath err=%v but the handler answered %d %s", method, gerr, code, resp))
+				}
+				if gerr != nil && code >= 200 && code < 300 {
+					out.L2("handler-accepts-invalid-name", op, fmt.Sprintf("%s /api/blobs answered %d for a refused digest", method, code))
+				}
+			}
+			if method == "HEAD" && code == http.StatusOK {
+				out.Count("handler_blob_found")
+				if p, _ := GetBlobsPath(d); !strings.HasPrefix(p, store+"/blobs/") {
+					out.L2("handler-reads-outside", op, "HEAD /api/blobs found a blob outside the store")
+				}
+				if !strings.EqualFold(strings.Replace(d, ":", "-", 1), blobX) {
+					out.L2("handler-reads-outside", op, "HEAD /api/blobs answered 200 for a digest the store does not hold: "+d)
+				}
+			}
+		}
+	}
 }
